@@ -126,7 +126,10 @@ def gen_script(rng, nclients=None, policy=None, track=None, auth=None, length=No
         st = wd.alive[e]
         if rel and rng.random() < (0.4 if rel_heavy else 0.15):
             # relationship registered for synchronized replication: set / replace / clear
-            if rng.random() < 0.75 and len(ents) > 1:
+            k_ = rng.random()
+            if k_ < 0.12 and st["marker"]:
+                lines.append("sop remark %d" % e)       # the marker inserted again on an entity that already has it: no effect on replication
+            elif k_ < 0.78 and len(ents) > 1:
                 t = rng.choice([x for x in ents if x != e])
                 lines.append("sop rel %d %d" % (e, t))
             else:
